@@ -1,6 +1,6 @@
 (* C16 — Pack output depends only on the tree and the options. *)
 From Slug Require Import Base.Str Base.PathAlg FS.FS Ignore.Rules Ignore.Glob Ignore.GlobProofs Ignore.RulesProofs
-  Ignore.Prune Slug.Unpack Slug.Pack.
+  Ignore.Prune Base.PathLemmas FS.FSProofs Slug.Unpack Slug.Pack Slug.RoundTrip Slug.RoundTripPack Slug.PackIgnore.
 
 (* History: whatever reachable state the shared default-rule flags were in when
    the rule file was parsed (pristine, or all set by an earlier file that began
@@ -11,6 +11,48 @@ Theorem C16_history_independent :
     (forall r, In r a -> rule_ok r) -> (forall r, In r b -> rule_ok r) ->
     forall t prefix, tree_ok t -> Prune.walk true a prefix t = Prune.walk true b prefix t.
 Proof. exact walk_history_independent. Qed.
+
+(* The same on the model of Pack itself: two Pack calls on the same file system,
+   tree, options, working directory and source path, started in any two
+   reachable states of the shared default-rule flags (i.e. after any history of
+   earlier Pack calls and rule-file parsing in the process), both succeed and
+   write the same entries, file list and size - for every tree of regular files,
+   directories, special files and links that stay inside, with or without a
+   .terraformignore, provided the loaded rules that end in "**" compile to a
+   trailing ".*" (rule_ok, evaluated per run).  Only the flags handed on to the
+   next call may differ. *)
+Theorem C16_pack_history_independent :
+  forall fs opts f1 f2 cwd fuel pre x pmR mtR ks r1 r2 fl1 fl2,
+    flags_reachable f1 -> flags_reachable f2 ->
+    is_dir fs = true -> rdir fs pre -> forallb seg_ok (pre ++ [x]) = true ->
+    get fs (pre ++ [x]) = Some (to_node (SDir pmR mtR ks)) ->
+    sheight (SDir pmR mtR ks) < fuel -> wfs (SDir pmR mtR ks) ->
+    wf (SDir pmR mtR ks) -> links_ok [] (SDir pmR mtR ks) -> nlfree (SDir pmR mtR ks) ->
+    load_rules fs opts f1 cwd (join_abs (pre ++ [x])) = (r1, fl1) ->
+    load_rules fs opts f2 cwd (join_abs (pre ++ [x])) = (r2, fl2) ->
+    (forall rs r, r1 = Some rs \/ r2 = Some rs -> In r rs -> rule_ok r) ->
+    exists es files size,
+      pack fuel fs opts f1 cwd (join_abs (pre ++ [x])) = (PackOk es files size, fl1) /\
+      pack fuel fs opts f2 cwd (join_abs (pre ++ [x])) = (PackOk es files size, fl2).
+Proof. exact pack_history_independent. Qed.
+
+(* a concrete pair of runs: a rule file whose directory rule is dominating from
+   the pristine flags and not from the polluted ones - same slug *)
+Example C16_pack_history_instance :
+  let ign := s2l ("logs/" ++ String (ch 10) "*.tmp") in
+  let t := SDir 493 None
+             [(s2l ".terraformignore", SFile ign 420 None);
+              (s2l "a", SFile (s2l "a") 420 None);
+              (s2l "logs", SDir 493 None [(s2l "z.log", SFile (s2l "z") 420 None)]);
+              (s2l "x.tmp", SFile (s2l "x") 420 None)] in
+  let fs := Dir 493 None [(s2l "s", to_node t)] in
+  let opts := mkOpts false true [] in
+  fst (pack 10 fs opts pristine_flags [] (s2l "/s")) = fst (pack 10 fs opts [true; true; true] [] (s2l "/s")) /\
+  match fst (pack 10 fs opts pristine_flags [] (s2l "/s")) with
+  | PackOk es _ _ => map pe_name es = [s2l ".terraformignore"; s2l "a"]
+  | _ => False
+  end.
+Proof. vm_compute. split; reflexivity. Qed.
 
 (* the shared flags only ever move from the pristine state to all-true *)
 Theorem C16_flag_states :
@@ -54,4 +96,5 @@ Proof. vm_compute. discriminate. Qed.
 
 Print Assumptions C16_history_independent.
 Print Assumptions C16_flag_states.
+Print Assumptions C16_pack_history_independent.
 Print Assumptions C16_spelling_independent.
